@@ -93,7 +93,9 @@ fn with_task_key<R>(scn: &Scenario, t: i64, f: impl FnOnce(&dyn KeyObj) -> R) ->
     1 => f(&Tk::<1>(num)),
     2 => f(&Box::new(Tk::<0>(num))),
     3 => f(&std::rc::Rc::new(Tk::<0>(num))),
-    _ => f(&std::sync::Arc::new(Tk::<0>(num))),
+    4 => f(&std::sync::Arc::new(Tk::<0>(num))),
+    5 => f(&ZA),
+    _ => f(&ZB),
   }
 }
 fn with_res_key<R>(scn: &Scenario, r: i64, f: impl FnOnce(&dyn KeyObj) -> R) -> R {
